@@ -218,7 +218,7 @@ struct Stats {
     batch_fallbacks: u64,
     cases_cut_by_time_slice: u64,
     seed_rejects: Vec<String>,
-    backtrace_lookups: u64,
+    unlocated_panics: u64,
     timeouts_after_confirmed_hang: u64,
     directed: u64,
     directed_outcomes: Vec<String>,
@@ -582,14 +582,24 @@ impl<'a> Runner<'a> {
                 // a location outside /repo (std or a dependency without #[track_caller]): the site that identifies the
                 // defect is the innermost /repo frame; look it up by re-running the input alone with a backtrace
                 let mut located_by_backtrace = None;
-                if !p.in_repo && self.st.backtrace_lookups < 12 {
-                    self.st.backtrace_lookups += 1;
-                    if let Outcome::Panic(q) = self.run_alone_env(input, ALONE_TIMEOUT, true).0 {
-                        if let Some(frame) = q.raw_location.split(" <- innermost /repo frame: ").nth(1) {
-                            located_by_backtrace = Some(p.site.clone());
-                            p.site = frame.to_string();
-                            p.in_repo = true;
+                if !p.in_repo {
+                    for _attempt in 0..2 {
+                        if let Outcome::Panic(q) = self.run_alone_env(input, ALONE_TIMEOUT, true).0 {
+                            if let Some(frame) = q.raw_location.split(" <- innermost /repo frame: ").nth(1) {
+                                located_by_backtrace = Some(p.site.clone());
+                                p.site = frame.to_string();
+                                p.in_repo = true;
+                                break;
+                            }
                         }
+                    }
+                    if !p.in_repo && !p.site.starts_with('/') {
+                        // std/dependency location and no /repo frame could be found (backtrace run failed or timed out):
+                        // the tool failed, do not invent a signature from a location that does not identify the defect
+                        self.st.unlocated_panics += 1;
+                        ctx.count("panics_outside_repo_not_located");
+                        ctx.inconclusive(&format!("{name}: a panic at {} ({}) could not be attributed to a /repo frame (backtrace re-run failed)", p.site, p.message));
+                        return None;
                     }
                 }
                 let sig = format!("panic|{name}|{}", p.site);
@@ -2789,6 +2799,22 @@ fn directed_inputs(name: &str) -> Vec<(&'static str, Vec<u8>)> {
             let mut truncated = index_file(2, 1, &entry, &[]);
             truncated.truncate(12 + entry.len());
             out.push(("directed:entry-padding-beyond-data", truncated));
+            // a valid EOIE (offset + SHA-1 over the preceding extension headers) makes the threaded reader trust the IEOT table
+            let with_ieot = |table: Vec<u8>| {
+                let mut one = vec![0u8; 40];
+                one.extend_from_slice(&[0x22; 20]);
+                one.extend_from_slice(&1u16.to_be_bytes());
+                one.extend_from_slice(b"a\0");
+                let ieot_body = [&1u32.to_be_bytes()[..], &table[..]].concat();
+                let ext_start = (12 + one.len()) as u32;
+                let mut hashed = b"IEOT".to_vec();
+                hashed.extend_from_slice(&(ieot_body.len() as u32).to_be_bytes());
+                let eoie = [&ext_start.to_be_bytes()[..], &fw::sha1_bytes(&hashed)[..]].concat();
+                index_file(2, 1, &one, &[(b"IEOT", ieot_body), (b"EOIE", eoie)])
+            };
+            out.push(("directed:ieot-valid-baseline", with_ieot([12u32.to_be_bytes(), 1u32.to_be_bytes()].concat())));
+            out.push(("directed:ieot-offset-beyond-file", with_ieot([0xffff_fff0u32.to_be_bytes(), 1u32.to_be_bytes()].concat())));
+            out.push(("directed:ieot-entry-counts-sum-above-u32", with_ieot([12u32.to_be_bytes(), 0x8000_0000u32.to_be_bytes(), 12u32.to_be_bytes(), 0x8000_0000u32.to_be_bytes()].concat())));
             // IEOT/EOIE pointing outside the file
             let eoie = [&0xffff_fff0u32.to_be_bytes()[..], &[0u8; 20][..]].concat();
             out.push(("directed:eoie-offset-beyond-data", index_file(2, 0, &[], &[(b"EOIE", eoie)])));
